@@ -4,4 +4,4 @@ B="$1"; shift
 cd /repo || exit 2
 git apply /verif/selftest/benign/$B.diff || exit 2
 for c in "$@"; do (cd /verif && ./check $c 2>&1 | grep -v KNOWN | head -${BL:-14} | cut -c1-${BW:-330}); done
-git -C /repo checkout -q -- .
+git -C /repo checkout -q -- . && git -C /repo clean -fdq
